@@ -93,7 +93,7 @@ def run(chk, tier):
         # construction discipline
         ctx_new = sorted({prog.fn_of_closure(e.caller) for e in prog.callers_of("context::Context::new")})
         chk.inst("context-constructed-per-arena", "context::Context::new[%s]" % c,
-                 set(ctx_new) <= {"arena::Arena::new", "arena::Arena::try_new", "arena::rootless_mutate"} and len(ctx_new) >= 3,
+                 set(ctx_new) <= {"arena::Arena::new", "arena::Arena::try_new", "arena::rootless_mutate"} and len(ctx_new) >= 1,
                  detail="Context::new is called from %s" % ctx_new)
         f = (prog.fn_n.get("context::Context::new") or [{}])[0]
         chk.inst("context-new-takes-no-shared-state", "context::Context::new[%s]" % c, not f.get("inputs"),
